@@ -895,7 +895,7 @@ def parse_page_selectors(rule):
 
 def preprocess_stylesheet(device_media_type, base_url, stylesheet_rules, url_fetcher,
                           matcher, page_rules, font_config, counter_style,
-                          ignore_imports=False):
+                          ignore_imports=False, imported=()):
     """Do what can be done early on stylesheet, before being in a document."""
     for rule in stylesheet_rules:
         if getattr(rule, 'content', None) is None:
@@ -979,12 +979,18 @@ def preprocess_stylesheet(device_media_type, base_url, stylesheet_rules, url_fet
                 continue
             if not media_queries.evaluate_media_query(media, device_media_type):
                 continue
+            if url in imported:
+                LOGGER.warning(
+                    'Recursive @import of %s ignored at %d:%d.',
+                    url, rule.source_line, rule.source_column)
+                continue
             if url is not None:
                 try:
                     CSS(
                         url=url, url_fetcher=url_fetcher, media_type=device_media_type,
                         font_config=font_config, counter_style=counter_style,
-                        matcher=matcher, page_rules=page_rules)
+                        matcher=matcher, page_rules=page_rules,
+                        _imported=(*imported, url))
                 except URLFetchingError as exception:
                     LOGGER.error('Failed to load stylesheet at %s : %s', url, exception)
                     LOGGER.debug('Error while loading stylesheet:', exc_info=exception)
